@@ -65,6 +65,15 @@ theorem bootstrap_texts_noignore (cfg : Cfg) (ls : List Str) (h : cfg.ignoreBlan
 
 /-! ## the state machine -/
 
+/-- step results can be compared (used by the `decide` examples) -/
+instance : DecidableEq (Except Err Unit) := fun a b =>
+  match a, b with
+  | .ok (), .ok () => isTrue rfl
+  | .error e, .error e' =>
+    if h : e = e' then isTrue (h ▸ rfl) else isFalse (fun h' => by cases h'; exact h rfl)
+  | .ok _, .error _ => isFalse (fun h => by cases h)
+  | .error _, .ok _ => isFalse (fun h => by cases h)
+
 /-- shape of every step: nothing happens, a commit, or a text change followed by the
 auto-commit -/
 theorem step_cases (s : S) (op : Op) :
